@@ -887,6 +887,17 @@ def r09_11(ctx, run, rule='R09.11'):
                             is_bin = (c[2] == 2)
                         elif c[1] == 'ne' and 2 in c[2]:
                             is_bin = False
+                    # a pattern on the operand's operator (`Expr::BinaryOp { op: And | Or, .. }`): a switch on the discriminant of its `op` field
+                    if t[0] == 'discr':
+                        x_ = deref_all(t[1])
+                        if x_[0] == 'field' and x_[2] == 'op' and any(s[0] == 'field' and s[2] == side and s[1][0] == 'downcast' and s[1][2] == 'BinaryOp' for s in subterms(x_)):
+                            if c[1] == 'eq' and isinstance(c[2], int) and c[2] < len(ops):
+                                for o_ in ops:
+                                    op_tests[o_] = (o_ == ops[c[2]])
+                            elif c[1] == 'ne' and isinstance(c[2], tuple):
+                                for v_ in c[2]:
+                                    if isinstance(v_, int) and v_ < len(ops):
+                                        op_tests[ops[v_]] = False
                     if t[0] == 'call' and canon(t[1]).endswith('PartialEq::eq') and len(t[2]) == 2:
                         k = deref_all(t[2][1])
                         inner_side = any(s[0] == 'field' and s[2] == side for s in subterms(t[2][0]))
